@@ -11,7 +11,7 @@ pub const SIGMA: [&str; 13] = ["a", "b", "h", "-", " ", "\"", "\\", "é", "€",
 pub const SIGMA_W: [usize; 13] = [14, 12, 8, 8, 12, 5, 3, 8, 7, 7, 3, 3, 3];
 pub const CSI_LOOKALIKES: [&str; 9] = ["[", "[", "A", "D", "1", ";", "~", "O", "]"];
 pub const POOL: [&str; 8] = ["a", "b", "ab", "é", "abc", "a b", "€ 𐍈", "abba -h"];
-pub const HELP_POOL: [&str; 11] = ["help", "help ab", "ab x --help", "b -h", "help ha take", "help nope", "ba 1 -h", "help -x", "ab -vh", "b -hv x", "ba -é -xh"];
+pub const HELP_POOL: [&str; 14] = ["help", "help ab", "ab x --help", "b -h", "help ha take", "help nope", "ba 1 -h", "help -x", "ab -vh", "b -hv x", "ba -é -xh", "ab -- -h", "b x -- --help", "ba -- -vh --help"];
 
 #[derive(Clone, Debug)]
 pub struct Profile {
